@@ -1,0 +1,8 @@
+//go:build !verif
+// +build !verif
+
+package ledgerstore
+
+// verifCrashPoint is a no-op in normal builds. With the build tag `verif` it lets a verification harness
+// stop submitBlock between the store commits (process-crash model).
+func verifCrashPoint(k int) {}
